@@ -530,6 +530,13 @@ impl Ctx {
     pub fn evaluations(&self) -> u64 {
         self.stats.evaluations
     }
+    pub fn nontrivial_count(&self) -> usize {
+        self.stats.nontrivial.len()
+    }
+    /// a child process already printed the VIOLATION line and wrote the replay
+    pub fn mark_external_violation(&mut self, leg: &str) {
+        self.violations.push(Violation { leg: leg.into(), clause: "reported-by-child".into(), detail: String::new(), replay: PathBuf::new() });
+    }
     pub fn report_violation_raw<C: Serialize>(&mut self, leg: &str, case: &C, clause: &str, detail: &str) {
         self.record_violation(leg, case, clause, detail)
     }
@@ -537,6 +544,11 @@ impl Ctx {
     /// Writes the evidence file and returns the process exit code.
     pub fn finish(mut self) -> i32 {
         let wall = self.start.elapsed().as_secs_f64();
+        for k in &self.known {
+            if self.stats.hit_known.get(&k.sig).copied().unwrap_or(0) > 0 && self.known_reported.insert(k.sig.clone()) {
+                println!("KNOWN-FINDING: property={} sig={} {}", self.id, k.sig, k.text);
+            }
+        }
         let mut coverage = Map::new();
         coverage.insert("evaluations".into(), json!(self.stats.evaluations));
         coverage.insert("distinct_nontrivial".into(), json!(self.stats.nontrivial.len()));
@@ -613,7 +625,8 @@ pub fn replay_case<C: Case>(property: &str, case_json: &Value, repeats: u32, eva
         match eval(&case) {
             Outcome::Fail { clause, detail } => {
                 println!("replay {i}: FAIL clause={clause}\n  {detail}");
-                println!("VIOLATION property={property} replay=<given>");
+                let path = std::env::var("VERIF_REPLAY_PATH").unwrap_or_else(|_| "<given>".into());
+                println!("VIOLATION property={property} replay={path}");
                 return 1;
             }
             Outcome::Inconclusive(w) => {
